@@ -459,6 +459,7 @@ package io
 //@   ensures [one_item_in_reference_mode] len(dec.refer.ref) == old(len(dec.refer.ref)) + ite(dec.simple, 0, 1) && dec.simple == old(dec.simple)
 
 //@ func (*Decoder).readStringAsSafeBytes
+//@   prop C04 C14 C05
 //@   use decleaf
 //@   atmake [allocation_bounded_by_what_was_read] makecap <= len(dec.buf)
 //@   ensures [result_never_aliases_the_input] result != nil ==> isnew(arr(result))
@@ -723,3 +724,14 @@ package io
 //@   modifies buf[*]
 //@   loop 1 invariant [room_for_what_is_left] 0 <= off && off <= 20 && 0 <= i && i < pow10(off) && i <= i0 && (i < i0 ==> off < 20) && (i == i0 ==> off == 20)
 //@   ensures [offset_within_the_buffer] 0 <= off && off <= 20 && (i0 == 0 ==> off == 20) && (i0 > 0 ==> off < 20)
+
+// every use of a struct coder's tables happens under its read lock (the obligations are the
+// lock-held checks of the guarded fields; nothing else is claimed for these functions)
+//@ func (*structEncoder).Write
+//@   prop C14
+//@   havoc
+//@   modifies ghost.held[*]
+//@ func (*structDecoder).decodeField
+//@   prop C14
+//@   havoc
+//@   modifies ghost.*
